@@ -70,6 +70,45 @@ func harnessOverlay(pkgRels []string, workDir string) (map[string]string, error)
 	return ov, nil
 }
 
+// loadInterpDir loads a stand-alone (generated) module directory into the engine.
+func loadInterpDir(dir string, patterns []string, prefixes []string) (*Interp, error) {
+	cfg := &packages.Config{
+		Mode:       packages.LoadAllSyntax,
+		Dir:        dir,
+		BuildFlags: []string{"-tags=" + harnessTag},
+		Env:        append(os.Environ(), "GOFLAGS=-mod=mod", "GOPROXY=off"),
+	}
+	pkgs, err := packages.Load(cfg, patterns...)
+	if err != nil {
+		return nil, err
+	}
+	nerr := 0
+	packages.Visit(pkgs, nil, func(pk *packages.Package) {
+		for _, e := range pk.Errors {
+			if nerr < 10 {
+				fmt.Fprintf(os.Stderr, "load error: %v\n", e)
+			}
+			nerr++
+		}
+	})
+	if nerr > 0 {
+		return nil, fmt.Errorf("%d package load errors in generated subject package", nerr)
+	}
+	prog, _ := ssautil.AllPackages(pkgs, ssa.InstantiateGenerics)
+	in := &Interp{prog: prog, pkgs: pkgs, ssaPkgs: map[string]*ssa.Package{}, intr: map[string]Intrinsic{},
+		repoPrefix: prefixes, globalInit: map[*ssa.Global]Val{}, built: map[*ssa.Package]bool{}}
+	for _, sp := range prog.AllPackages() {
+		in.ssaPkgs[sp.Pkg.Path()] = sp
+		if in.isRepoPkg(sp) {
+			in.ensureBuilt(sp)
+		}
+	}
+	in.registerIntrinsics()
+	registerModels(in)
+	in.runInits()
+	return in, nil
+}
+
 func loadInterp(pkgRels []string, extraOverlay map[string]string, extraPatterns []string, workDir string) (*Interp, error) {
 	ov, err := harnessOverlay(pkgRels, workDir)
 	if err != nil {
